@@ -66,7 +66,7 @@ partial def pMap (cs : List Char) : Option (List (DK × DV) × List Char) :=
   | _ => none
 end
 
-def numText (buf : Buf) (s e : Nat) : List UInt8 := (buf.toList.drop s).take (e - s)
+def numText (buf : Buf) (s e : Nat) : List UInt8 := (buf.extract s e).toList
 
 /-- does the number literal `buf[s..e)` denote the f64 with these bits? -/
 def isF64 (buf : Buf) (s e : Nat) (bits : Nat) : Bool :=
